@@ -9,3 +9,4 @@ import OQuPyVerif.Props.C01
 import OQuPyVerif.Props.C18
 import OQuPyVerif.Props.C14
 import OQuPyVerif.Props.C05
+import OQuPyVerif.Props.C07
